@@ -298,6 +298,30 @@ func TestC13(t *testing.T) {
 		c.add(1305, kind, true, args(L{ipU32(a.SenderIP), ipU32(a.TargetIP), uint64(a.Opcode)}, B(a.SenderMAC), B(a.TargetMAC)), args(B(out)))
 		emitDecodeARP(c, kind+"/rt", out)
 	}
+	// addresses and opcodes with a meaning of their own: the probe (request from 0.0.0.0), gratuitous forms, all-zero / all-one hardware addresses
+	for _, sip := range []uint32{0, 1, 0xffffffff, 0x0a000001} {
+		for _, tip := range []uint32{0, 0xffffffff, 0x0a000001} {
+			for _, op := range []uint8{0, 1, 2, 3, 255} {
+				for _, tm := range [][]byte{{0, 0, 0, 0, 0, 0}, {0xff, 0xff, 0xff, 0xff, 0xff, 0xff}, randBytes(r, 6)} {
+					a := layer.ARP{SenderMAC: randBytes(r, 6), TargetMAC: tm, SenderIP: ip4(sip), TargetIP: ip4(tip), Opcode: op}
+					var out []byte
+					if safely(func() { out = a.Assemble() }) {
+						c.add(1305, "arp-special", true, args(L{ipU32(a.SenderIP), ipU32(a.TargetIP), uint64(a.Opcode)}, B(a.SenderMAC), B(a.TargetMAC)), resPanic())
+						continue
+					}
+					c.add(1305, "arp-special", true, args(L{ipU32(a.SenderIP), ipU32(a.TargetIP), uint64(a.Opcode)}, B(a.SenderMAC), B(a.TargetMAC)), args(B(out)))
+					emitDecodeARP(c, "arp-special/rt", out)
+					// the round trip itself: sender and target addresses and the opcode come back
+					want, got := L{uint64(sip), uint64(tip), uint64(op)}, L{}
+					gs, gt := []byte{}, []byte{}
+					if v, err := layer.DecodeARP(out); err == nil {
+						got, gs, gt = L{ipU32(v.SenderIP), ipU32(v.TargetIP), uint64(v.Opcode)}, v.SenderMAC, v.TargetMAC
+					}
+					c.add(1314, "arp-special/rt", true, args(want, got, B(append(append([]byte{}, a.SenderMAC...), a.TargetMAC...)), B(append(append([]byte{}, gs...), gt...))), args(L{1}))
+				}
+			}
+		}
+	}
 	for n := 0; n < 64; n++ {
 		emitDecodeARP(c, "arp-len", randBytes(r, n))
 	}
